@@ -285,7 +285,7 @@ def check_uri(case, ctx: Ctx):
         check(list(got) == case["expect"], lambda: f"parse_cooler_uri({case['s']!r}) = {got!r} want {case['expect']}")
         f, g = case["expect"]
         for alt in (f"{f}::{g}", f"{f}::{g[1:]}"):
-            if alt.count("::") == 1:
+            if alt.count("::") == 1 and not g[1:].startswith("/"):
                 got2 = call(f"parse_cooler_uri({alt!r})", parse_cooler_uri, alt)
                 check(list(got2) == case["expect"], lambda: f"slash spelling {alt!r} -> {got2!r} want {case['expect']}")
     ctx.record(case, "::" in case["s"], ["uri", "uri-error" if case["expect"] == "error" else "uri-ok"], key="uri:" + case["s"])
